@@ -193,7 +193,7 @@ def _case_symbols(sy, atoms, extra_strs=()):
     import re as _re
     strs = [atom_str(a) for a in atoms] + list(extra_strs)
     cands = []
-    uw = [n for n in list(sy.sym_terms) if n.startswith("Option::<T>::unwrap_or(") and unwrap_or_cases(sy, n)]
+    uw = [n for n in list(sy.sym_terms) if n.startswith(("Option::<T>::unwrap_or(", "Option::<T>::map_or(")) and unwrap_or_cases(sy, n)]
     names = list(sy.phi_defs) + [n for n, (kind, P, k) in sy.divrem.items() if kind == "rem" and k <= 4] + uw + list(sy.b2i)
     for n in names:
         occ = [x for x in strs if n in x]
@@ -214,12 +214,27 @@ def unwrap_or_cases(sy, n):
         return None
     from .terms import unmut, short as _short
     t = unmut(t)
+    t_orig = t
+    if t[0] == "call" and _short(t[1]) == "Option::<T>::map_or" and len(t[2]) == 3:
+        # X.map_or(d, f) is X.map(f).unwrap_or(d)
+        t = ("call", "core::option::Option::<T>::unwrap_or", (("call", "core::option::Option::<T>::map", (t[2][0], t[2][2]), t[3]), t[2][1]), t[3])
     if not (t[0] == "call" and _short(t[1]) == "Option::<T>::unwrap_or" and len(t[2]) == 2):
         return None
     X, D = t[2]
     pd = sy.poly(D)
     if pd is None:
         return None
+    Xo = unmut(X)
+    if Xo[0] == "call" and _short(Xo[1]) == "Option::<T>::or" and len(Xo[2]) == 2:
+        # A.or(B).unwrap_or(d): A's payload, else B's payload, else d
+        A, B = Xo[2]
+        from .terms import strip as _strip0
+        key0 = _strip0(unmut(sy.sym_terms.get(n)))
+        pa = sy.poly(("field", ("downcast", unmut(A), "Some"), 0))
+        pb = sy.poly(("field", ("downcast", unmut(B), "Some"), 0))
+        if pa is not None and pb is not None:
+            an_, bn_ = sy.name(A), sy.name(B)
+            return [(key0, pa, [("some", an_)]), (key0, pb, [("none", an_), ("some", bn_)]), (key0, pd, [("none", an_), ("none", bn_)])]
     # X = Y.map(f): Some exactly when Y is Some, payload f(payload of Y)
     from .guards import closure_info, closure_ret, subst_upvars
     wrap = []
@@ -241,7 +256,7 @@ def unwrap_or_cases(sy, n):
     payload = pp_ if pp_ is not None else Poly.sym(sy.name(pt))
     xn = sy.name(X)
     from .terms import strip as _strip
-    key = _strip(t)       # keyed by the call term: canonical names change while nested cases are substituted
+    key = _strip(t_orig)       # keyed by the call term: canonical names change while nested cases are substituted
     return [(key, payload, [("some", xn)]), (key, pd, [("none", xn)])]
 
 
